@@ -53,7 +53,7 @@ CASES = {
                "ascq": 0, "has_text": True, "has_key": True}],
         corrupt=lambda t: t[0].__setitem__("asc", 0x25), at=0),
     "Trace_Attach": dict(
-        good=[{"ev": "reset"}, {"ev": "attach", "dev": "d1", "type": 5, "qual": 0, "tr": "sgio", "fresh": True,
+        good=[{"ev": "reset"}, {"ev": "attach", "fault": 0, "dev": "d1", "type": 5, "qual": 0, "tr": "sgio", "fresh": True,
                                 "cdbs": [[18, 0, 0, 0, 96, 0]], "set": "mmc", "primary": True, "devtype": 5, "exc": "", "others": {}}],
         corrupt=lambda t: t[1].__setitem__("set", "sbc"), at=1),
     "Trace_Target": dict(
